@@ -158,6 +158,11 @@ func Note(s string) {}
 // Yield is a visible scheduling point.
 func Yield() {}
 
+// Preemptible(false) marks a sequential phase of a harness: the executor's
+// scheduler switches threads only when the running one blocks, until
+// Preemptible(true). Natively a no-op.
+func Preemptible(on bool) {}
+
 // Settle lets every other goroutine run until it finishes or blocks.
 func Settle() { time.Sleep(30 * time.Millisecond) }
 
